@@ -10,7 +10,10 @@ point of the class (inherited mixin methods included, own helpers inlined):
 
     CLEAN --(primary state mutated)--> STALE --(derived field re-assigned / cleared)--> CLEAN
 
-and a normal exit in STALE is reported: the next use of the derived field answers from before the mutation.  "Mutated" is a
+and a normal exit in STALE is reported: the next use of the derived field answers from before the mutation.  The pairing is per
+path, not per order (an invalidation may precede the mutation it is meant for), a path that itself *reads* the derived field counts
+as aware of it (it validates what it read or is the operation that maintains it), and implicit exceptions enter handlers only
+from before a mutation.  These three relaxations were made after repaired twins of seeded changes (correct memos) were reported.  "Mutated" is a
 store / delete / augmented assignment to a primary field or through it (``self.cache[k] = n``, ``del self.values[i]``) or a
 call of a method on a primary field that is not in the read-only table below.  What the derived value *is* does not matter to
 the rule, so it holds for fields that do not exist yet.
@@ -127,6 +130,12 @@ class _Stale(Client):
             return d[1]
         return None
 
+    def handler_entry(self, handler, trace_states, ctx):
+        # implicit exceptions: a handler is entered from the points of the try body *before* a mutation (the failed look-up of
+        # `try: self[k] except KeyError`), not from the middle of a mutate-then-refresh sequence; what a fault between the two
+        # leaves behind is outside this rule (explicit raises are followed exactly)
+        return {s for s in trace_states if not any(("m", d) in s and ("r", d) not in s for d in self.derived)}
+
     def _mutated(self, state, line, reassign: bool):
         add = set()
         for d, kind in self.derived.items():
@@ -147,6 +156,10 @@ class _Stale(Client):
                     return self._mutated(state, tgt.lineno if not ctx.func.cls.is_external else 0, True)
             if isinstance(tgt, ast.Subscript) and self._prim(tgt.value, ctx):
                 return self._mutated(state, tgt.lineno if not ctx.func.cls.is_external else 0, False)
+        if kind == "load" and isinstance(node, ast.Attribute) and ctx.scope.is_self(node.value) and node.attr in self.derived:
+            # a path that consults the derived field works with it knowingly (it validates what it read, or it is the very
+            # operation that maintains it); the obligation is aimed at the operations that change the source *without looking*
+            return (state | {("r", node.attr)},)
         if kind == "call" and isinstance(node, ast.Call) and isinstance(node.func, ast.Attribute):
             recv = node.func.value
             if self._prim(recv, ctx) and node.func.attr not in READ_ONLY_CALLS:
